@@ -18,15 +18,11 @@ import (
 //   - \d+\s+\w+        → digits, whitespace, word chars
 //   - [a-z]+[A-Z]+     → lowercase then uppercase
 //
-// Thread safety: NOT thread-safe. For concurrent usage, each goroutine needs its own instance.
+// Thread safety: a CompositeSearcher is immutable after construction and safe for concurrent use.
 //
 // Reference: https://github.com/coregx/coregex/issues/72
 type CompositeSearcher struct {
 	parts []*charClassPart
-
-	// matchLengths is pre-allocated scratch space for backtracking.
-	// Reused across calls to avoid per-match allocations.
-	matchLengths []int
 }
 
 // charClassPart represents one segment of a composite pattern.
@@ -53,8 +49,7 @@ func NewCompositeSearcher(re *syntax.Regexp) *CompositeSearcher {
 	}
 
 	return &CompositeSearcher{
-		parts:        parts,
-		matchLengths: make([]int, len(parts)), // Pre-allocate to avoid per-match allocation
+		parts: parts,
 	}
 }
 
@@ -205,11 +200,15 @@ func (c *CompositeSearcher) SearchAt(haystack []byte, at int) (int, int, bool) {
 // consumes all 6 characters. Backtracking gives back digits until
 // [0-9]+ can match its minimum (1 character).
 func (c *CompositeSearcher) matchAt(haystack []byte, pos int) (int, bool) {
-	// Reset pre-allocated matchLengths (faster than allocating new slice)
-	for i := range c.matchLengths {
-		c.matchLengths[i] = 0
+	// Scratch space for backtracking is per call: the searcher is shared by every
+	// goroutine that searches with the compiled pattern, so it must not live in
+	// the struct. Patterns have a handful of parts, so this stays on the stack.
+	var buf [8]int
+	matchLengths := buf[:]
+	if len(c.parts) > len(buf) {
+		matchLengths = make([]int, len(c.parts))
 	}
-	return c.matchAtWithBacktrack(haystack, pos, 0, c.matchLengths)
+	return c.matchAtWithBacktrack(haystack, pos, 0, matchLengths[:len(c.parts)])
 }
 
 // matchAtWithBacktrack recursively matches parts with backtracking support.
